@@ -49,6 +49,8 @@ package actor
 
 //@ ghost local began_nl bool
 //@ func (*actorSystem).handleNodeLeftEvent(x, event)
+//@   requires x.relocationJobs != nil
+//@   preserve actorSystem.relocationJobs, actorSystem.relocator
 //@   ghost entry began_nl = false
 //@   at call 1 of (*actorSystem).beginRelocation ghost began_nl = result
 //@   at call 1 of (*actorSystem).publishRelocationStarted assert announces-only-a-registered-job: began_nl
@@ -70,3 +72,16 @@ package actor
 //@ structural mapwriters relocator.workers: newRelocator, (*relocator).startWorker, (*relocator).handleTerminated
 //@ structural writers relocator.pid: (*relocator).Receive
 //@ structural mustcall (*relocator).abortRelocation: invoke reportAbortedRelocation, invoke endRelocation
+
+// the worker releases the job only after the departed node's snapshot is gone:
+// released earlier, a duplicate NodeLeft in the window would find the snapshot
+// again and start a second relocation of the same departure
+//@ ghost local fin_store_nil bool
+//@ ghost local fin_deleted bool
+//@ func (*relocationWorker).finish(w, ctx, address)
+//@   ghost entry fin_deleted = false
+//@   ghost entry fin_store_nil = false
+//@   at call 1 of invoke getClusterStore ghost fin_store_nil = result == nil
+//@   at call 1 of invoke DeletePeerState assert deletes-the-departed-nodes-snapshot: arg2 == address
+//@   at call 1 of invoke DeletePeerState ghost fin_deleted = true
+//@   at call 1 of invoke endRelocation assert releases-only-after-the-snapshot-is-gone: (fin_deleted || fin_store_nil) && arg1 == address
